@@ -12,8 +12,11 @@ DefReward == <<225>> \o Fill(28, 8)              \* reward account, key credenti
 RECURSIVE Default(_,_)
 Default(S, s) ==
   CASE s.k = "ref" -> Default(S, S[s.a])
+    [] s.k \in {"nf", "outmap"} -> Default(S, s.a)
+    [] s.k = "bigtag" -> T(s.a, Bs(<<1, 0, 0, 0, 0, 0, 0, 0, 0>>))
+    [] s.k = "constr102" -> T(102, A(<<U(FromSmall(128)), A(<<>>)>>))
     [] s.k \in {"any", "uintmax"} -> U(Zero)
-    [] s.k \in {"uint", "posuint", "int", "nzint"} -> U(One)
+    [] s.k \in {"uint", "posuint", "int", "nzint", "mdint"} -> U(One)
     [] s.k = "const" -> U(FromSmall(s.a))
     [] s.k = "null" -> Sp(246)
     [] s.k = "bool" -> Sp(245)
@@ -36,6 +39,11 @@ Default(S, s) ==
 RECURSIVE Variants(_,_)
 Variants(S, s) ==
   CASE s.k = "ref" -> Variants(S, S[s.a])
+    [] s.k \in {"nf", "outmap"} -> Variants(S, s.a)
+    [] s.k = "bigtag" -> {T(s.a, Bs(<<1, 2, 3>>)), T(s.a, Bs(<<0, 1, 0, 0, 0, 0, 0, 0, 0, 0>>)), T(s.a, Bs(<<255, 255, 255, 255, 255, 255, 255, 255>>)),
+                          T(s.a, Bs(Fill(64, 9))), T(s.a, [k |-> "cbytes", s |-> Fill(65, 9)])}
+    [] s.k = "constr102" -> {T(102, A(<<U(v), A(<<>>)>>)) : v \in {One, FromSmall(127), FromSmall(128), U64Max}}
+    [] s.k = "mdint" -> {U(v) : v \in UVals} \cup {NI(v) : v \in UVals}
     [] s.k = "uint" -> {U(v) : v \in UVals}
     [] s.k = "posuint" -> {U(v) : v \in UVals \ {Zero}}
     [] s.k = "int" -> {U(v) : v \in UVals} \cup {NI(v) : v \in UVals}
@@ -51,7 +59,9 @@ Variants(S, s) ==
     [] s.k = "map" -> {M([i \in 1..Len(fs) |-> <<U(FromSmall(fs[i].key)), Default(S, fs[i].t)>>]) :
                         fs \in {SelectSeq(s.a, LAMBDA f : f.req \/ f.key = k) : k \in {s.a[j].key : j \in {i \in 1..Len(s.a) : ~s.a[i].req}}} \cup {s.a}}
     [] s.k \in {"table", "tables"} -> {M([i \in 1..n |-> <<Default(S, s.a), Default(S, s.b)>>]) : n \in {m \in 0..1 : m >= s.c}}
-    [] s.k = "intmap" -> {M(<<>>), M(<< <<U(One), Default(S, s.a)>> >>), M(<< <<U(One), Default(S, s.a)>>, <<U(U64Max), Default(S, s.a)>> >>)}
+    [] s.k = "intmap" -> {M(<<>>), M(<< <<U(One), Default(S, s.a)>> >>), M(<< <<U(One), Default(S, s.a)>>, <<U(U64Max), Default(S, s.a)>> >>),
+                          M(<< <<U(U64Max), Default(S, s.a)>>, <<U(One), Default(S, s.a)>> >>),
+                          M(<< <<U(FromSmall(9)), Default(S, s.a)>>, <<U(FromSmall(10)), Default(S, s.a)>>, <<U(FromSmall(674)), Default(S, s.a)>>, <<U(FromSmall(1000)), Default(S, s.a)>> >>)}
     [] s.k \in {"alt", "arrv"} -> {Default(S, s.a[j]) : j \in 1..Len(s.a)}
     [] s.k = "plist" -> {A(<<>>), [k |-> "iarr", xs |-> <<Default(S, s.a)>>], [k |-> "iarr", xs |-> <<Default(S, s.a), Default(S, s.a)>>]}
     [] s.k = "bbytes" -> {Bs(<<>>), Bs(Fill(64, 9)), [k |-> "cbytes", s |-> Fill(65, 9)], [k |-> "cbytes", s |-> Fill(130, 9)]}
@@ -63,6 +73,8 @@ K1(S, s, d) ==
   IF d = 0 THEN {} ELSE
   Variants(S, s) \cup
   (CASE s.k = "ref" -> K1(S, S[s.a], d - 1)
+     [] s.k \in {"nf", "outmap"} -> K1(S, s.a, d)
+     [] s.k = "constr102" -> {T(102, A(<<U(FromSmall(128)), x>>)) : x \in K1(S, s.a, d)}
      [] s.k = "tag" -> {T(s.a, x) : x \in K1(S, s.b, d)}
      [] s.k = "tagrange" -> {T(s.a, x) : x \in K1(S, s.c, d)}
      [] s.k = "arr" -> LET n == Cardinality({j \in 1..Len(s.a) : ~s.a[j].opt}) dflt == [i \in 1..n |-> Default(S, s.a[i].t)] IN
